@@ -285,3 +285,103 @@ Fixpoint hist_ok (univ : list key) (pre : kv) (ops : list op) (obs_ : list obs) 
   | o :: r, ob :: obs' => judge_step univ pre o ob && hist_ok univ (snd ob) r obs'
   | _, _ => false
   end.
+
+(* ---------------------------------------------------------------------------------------------- *)
+(* Concurrent use of ONE status store.  The real relayer runs retries, deliveries and executions of
+   different deposits concurrently on one PropStore.  Every thread has its own fault schedule, mutex
+   bit and deliveries (its [state], whose store contents are ignored: the contents are shared), and
+   its own operation list; a schedule names the thread that makes its next operation (operations
+   are atomic, as everywhere in this model).
+   Key layout: thread i owns the keys [nth i Ks []]; the keys [RE] are recorded executed at the
+   start and may be named by every operation of every thread; the keys [RO] are not pending at the
+   start and are named by retries only (they are only ever read). *)
+
+(* the keys an operation can read or write, given the deliveries made so far *)
+Definition touched (bs : list (list key)) (o : op) : list key :=
+  match o with
+  | Retry _ src _ _ ds => map (dkey src) ds
+  | Deliver ks => ks
+  | ExecOk i => nth i bs []
+  | ExecFail i => nth i bs []
+  end.
+
+Definition with_kv (m : kv) (x : state) : state :=
+  mkState (mkSto m (s_faults (st x)) (s_failed (st x))) (locked x) (batches x).
+
+Record thread := mkThread { t_x : state; t_ops : list op }.
+
+Fixpoint upd {A : Type} (i : nat) (a : A) (l : list A) : list A :=
+  match l, i with
+  | [], _ => []
+  | _ :: r, O => a :: r
+  | b :: r, S i' => b :: upd i' a r
+  end.
+
+Definition cstate := (kv * list thread)%type.
+
+(* thread i makes its next operation on the shared contents *)
+Definition cstep (i : nat) (c : cstate) : cstate * option obs :=
+  match nth_error (snd c) i with
+  | Some t =>
+      match t_ops t with
+      | o :: r =>
+          let (x', ou) := step o (with_kv (fst c) (t_x t)) in
+          ((s_kv (st x'), upd i (mkThread x' r) (snd c)), Some (ou, s_failed (st x'), s_kv (st x')))
+      | [] => (c, None)
+      end
+  | None => (c, None)
+  end.
+
+(* the trace of a schedule: who did what, and the state reached *)
+Fixpoint crun (sched : list nat) (c : cstate) : list (nat * obs) * cstate :=
+  match sched with
+  | [] => ([], c)
+  | i :: r =>
+      let (c', ob) := cstep i c in
+      let (tr, cf) := crun r c' in
+      (match ob with Some b => (i, b) :: tr | None => tr end, cf)
+  end.
+
+(* what thread i saw *)
+Definition proj (i : nat) (tr : list (nat * obs)) : list obs :=
+  map snd (filter (fun p => Nat.eqb (fst p) i) tr).
+
+(* two store contents / observation lists that cannot be told apart on the keys [T] *)
+Definition agree_on (T : list key) (m1 m2 : kv) : Prop := forall k, In k T -> get m1 k = get m2 k.
+Definition obs_sim (T : list key) (a b : list obs) : Prop :=
+  Forall2 (fun x y : obs => fst x = fst y /\ agree_on T (snd x) (snd y)) a b.
+
+Definition subk (a b : list key) : bool := forallb (fun k => memk k b) a.
+Definition disjk (a b : list key) : bool := forallb (fun k => negb (memk k b)) a.
+Fixpoint pairwise_disj (l : list (list key)) : bool :=
+  match l with [] => true | a :: r => forallb (disjk a) r && pairwise_disj r end.
+
+Definition op_own (K RE RO : list key) (o : op) : bool :=
+  match o with
+  | Retry _ src _ _ ds => forallb (fun k => memk k K || memk k RE || memk k RO) (map (dkey src) ds)
+  | Deliver ks => forallb (fun k => memk k K || memk k RE) ks
+  | _ => true
+  end.
+
+Definition thread_ok (K RE RO : list key) (t : thread) : bool :=
+  forallb wf_op (t_ops t) && forallb (op_own K RE RO) (t_ops t)
+  && forallb (fun b => subk b K) (batches (t_x t)) && negb (locked (t_x t)).
+
+Definition view (Ks : list (list key)) (RE RO : list key) (i : nat) : list key := nth i Ks [] ++ RE ++ RO.
+
+(* the well-formedness of a concurrent case (the generator satisfies it) *)
+Definition conc_wf (Ks : list (list key)) (RE RO : list key) (m : kv) (ts : list thread) : bool :=
+  Nat.eqb (length Ks) (length ts) && pairwise_disj Ks
+  && forallb (fun K => disjk K RE && disjk K RO) Ks
+  && forallb (fun k => is_exec (get m k)) RE
+  && forallb (fun k => negb (is_pending (get m k))) RO
+  && forallb (fun p => thread_ok (fst p) RE RO (snd p)) (combine Ks ts).
+
+(* the store contents a thread saw last *)
+Fixpoint last_kv (pre : kv) (obs_ : list obs) : kv :=
+  match obs_ with [] => pre | ob :: r => last_kv (snd ob) r end.
+
+(* the judge of a concurrent case, per thread: the sequential judge on the thread's own history over
+   the keys it can name, and what it last saw executed is executed in the final contents *)
+Definition thread_judge (V : list key) (init : kv) (ops : list op) (obs_ : list obs) (fin : kv) : bool :=
+  hist_ok V init ops obs_ && keeps_executed V (last_kv init obs_) fin.
